@@ -569,6 +569,8 @@ def match_known(d, prop, known):
             continue
         if m.get('relaxed_bidi') and d.get('relaxed') is not True:
             continue       # only divergences that the trace spec itself classified as exactly the D10 reading
+        if m.get('loose_zwnj') and d.get('loosej') is not True:
+            continue       # only divergences that the trace spec itself classified as exactly the D19 reading
         if m.get('predicate') == 'ypogegrammeni' and not has_ypogegrammeni(d.get('event', {})):
             continue
         if m.get('predicate') == 'protocol_colon_or_tab' and not protocol_colon_or_tab(d.get('event', {})):
